@@ -122,6 +122,31 @@ def _valid_angles(al, be, ga):
 
 def gen_cell(rng, kind):
     """-> (style, [a,b,c,alpha,beta,gamma]) conforming to the crystal system"""
+    if rng.chance(0.08):
+        # a cell typed the way people type it: whole numbers (Python ints; the executor keeps them ints)
+        def Li():
+            return float(rng.between(3, 12))
+        if kind == "triclinic":
+            while True:
+                ang = [float(rng.choice([60, 70, 75, 80, 85, 90, 95, 100, 105, 110, 120])) for _ in range(3)]
+                if _valid_angles(*ang):
+                    return "intcell", [Li(), Li(), Li()] + ang
+        if kind == "monoclinic":
+            return "intcell", [Li(), Li(), Li(), 90.0, float(rng.choice([60, 75, 90, 95, 100, 105, 110, 120, 130])), 90.0]
+        if kind == "orthorhombic":
+            return "intcell", [Li(), Li(), Li(), 90.0, 90.0, 90.0]
+        if kind == "tetragonal":
+            a = Li()
+            return "intcell", [a, a, Li(), 90.0, 90.0, 90.0]
+        if kind == "hexagonal":
+            a = Li()
+            return "intcell", [a, a, Li(), 90.0, 90.0, 120.0]
+        if kind == "rhombohedral":
+            a = Li()
+            al = float(rng.choice([50, 60, 70, 80, 90, 100, 110]))
+            return "intcell", [a, a, a, al, al, al]
+        a = Li()
+        return "intcell", [a, a, a, 90.0, 90.0, 90.0]
     long_axis = rng.chance(0.12)
 
     def L():
@@ -344,7 +369,54 @@ def _twin_pairs():
 
 
 TWIN_PAIRS = _twin_pairs()
-N_ENUM = 2 * len(SETTINGS) + len(TWIN_PAIRS)
+# sessions whose shell holds EXACTLY N symmetry-unique reflections, N at and next to powers of two (block sizes,
+# preallocated buffers, off-by-one loop bounds live there); (setting, N, module)
+ALIGNED = [((47, "standard"), 1025, "tools"), ((2, "standard"), 2049, "laue"), ((47, "standard"), 2048, "laue"),
+           ((16, "standard"), 4097, "tools")]
+ALIGNED_THOROUGH = [((sg_, "standard"), n_, m_) for sg_ in (47, 16, 2, 1) for n_ in (1023, 1024, 1025, 2047, 2048, 2049, 4095, 4096, 4097)
+                    for m_ in ("tools", "laue")]
+N_SWEEPS = 2 * len(SETTINGS) + len(TWIN_PAIRS)
+N_ENUM = N_SWEEPS + len(ALIGNED)
+
+
+def generate_aligned(rng, tier, setting, nfam, module):
+    """orthogonal-metric cell (no reflection conditions in these groups, the recorded traversal finding does not apply
+    to orthogonal metrics) and a shell (0, smax] that contains exactly `nfam` Laue families"""
+    import numpy as _np
+    no, cc = setting
+    for _ in range(50):
+        cell = [round(rng.uniform(5.0, 9.0), 4) for _ in range(3)] + [90.0, 90.0, 90.0]
+        vol = cell[0] * cell[1] * cell[2]
+        mult = 8.0 if no in (47, 16) else 2.0
+        s_big = 0.5 * ((1.6 * nfam * mult) * 3.0 / (4.0 * math.pi * vol)) ** (1.0 / 3.0)
+        P = O.box_points(cell, s_big)
+        st = O.stl_of(P, O.recip_metric(cell))
+        keep = st <= s_big
+        P, st = P[keep], st[keep]
+        if no in (47, 16):
+            key = _np.abs(P)
+        else:
+            sign = _np.where((P[:, 0] > 0) | ((P[:, 0] == 0) & (P[:, 1] > 0)) | ((P[:, 0] == 0) & (P[:, 1] == 0) & (P[:, 2] > 0)), 1, -1)
+            key = P * sign[:, None]
+        _, idx = _np.unique(key, axis=0, return_index=True)
+        fst = _np.sort(st[idx])
+        if len(fst) <= nfam + 1:
+            continue
+        lo, hi = float(fst[nfam - 1]), float(fst[nfam])
+        if hi - lo <= 1e-7 * hi:
+            continue
+        smax = 0.5 * (lo + hi)
+        if not O.margin_ok(O.stl_of(O.box_points(cell, smax), O.recip_metric(cell)), [0.0, smax]):
+            continue
+        w = {"sgno": no, "cell_choice": cc, "cell": [core.fhex(x) for x in cell], "cell_style": "aligned_count",
+             "smin": core.fhex(0.0), "smax": core.fhex(smax), "pair": False}
+        ops = [{"fn": "genhkl_all", "module": module, "mode": {"by": "sgno"}, "output_stl": True,
+                "rng": {"start": ["seed", 0], "preconsume": 0, "per_draw": {}}, "w": 0},
+               {"fn": "genhkl_unique", "module": module, "mode": {"by": "sgno"}, "output_stl": False, "rng": None, "w": 0}]
+        cfg = {"workloads": [w], "fault_free": True, "fault_kinds": [], "session_seed": rng.bits(32),
+               "cell_container": "list", "aligned_families": nfam}
+        return {"property": "C05", "config": cfg, "ops": ops}
+    raise core.HarnessError("no aligned-count shell found")
 
 
 SWEEP = {"quick": 8000, "thorough": 400000}
@@ -411,10 +483,16 @@ def generate(rng, tier, index):
     if index < 2 * len(SETTINGS):
         no, cc = SETTINGS[index % len(SETTINGS)]
         module = ["tools", "laue"][(index // len(SETTINGS)) % 2]
-    elif index < N_ENUM:
+    elif index < N_SWEEPS:
         # systematic adjacency sweep: setting A, then setting B with the same condition vector on other axes
         (no, cc), twin = TWIN_PAIRS[index - 2 * len(SETTINGS)]
         module = rng.choice(["tools", "laue"])
+    elif index < N_ENUM:
+        st_, n_, m_ = ALIGNED[index - N_SWEEPS]
+        return generate_aligned(rng, tier, st_, n_, m_)
+    elif tier == "thorough" and index < N_ENUM + len(ALIGNED_THOROUGH):
+        st_, n_, m_ = ALIGNED_THOROUGH[index - N_ENUM]
+        return generate_aligned(rng, tier, st_, n_, m_)
     else:
         # R-centred groups get extra weight (two settings each)
         if rng.below(10) == 0:
@@ -475,7 +553,7 @@ def generate(rng, tier, index):
                                         "mode": {"by": "sgno"}, "output_stl": rng.chance(0.5), "w": w2,
                                         "rng": {"start": ["continue"], "preconsume": 0, "per_draw": {}}}}
     cfg = {"logging": rng.weighted([("quiet", 5), ("default", 2), ("debug", 3)]), "clock": core.gen_clock(rng),
-           "checks_off": rng.chance(0.2),
+           "checks_off": rng.chance(0.2), "warnings": core.gen_warn(rng),
            "workloads": workloads, "fault_free": fault_free, "fault_kinds": kinds, "session_seed": rng.bits(32),
            "cell_container": rng.choice(["list", "list", "ndarray"])}
     if rng.chance(0.01):
@@ -616,7 +694,11 @@ def build_ctx(np, sg, w, kf_open, container):
             if p in c.truth:
                 c.base |= c.orbits[c.member[p]]
     # one cell object per workload for the whole session, as a client would hold it
-    c.session_cell = np.array(c.cell, dtype=float) if container == "ndarray" else list(c.cell)
+    if w.get("cell_style") == "intcell" and all(float(x).is_integer() for x in c.cell):
+        ints = [int(x) for x in c.cell]
+        c.session_cell = np.array(ints) if container == "ndarray" else ints
+    else:
+        c.session_cell = np.array(c.cell, dtype=float) if container == "ndarray" else list(c.cell)
     c.all_sets = []
     c.uniq_rows = None
     c.results = {}
@@ -666,8 +748,7 @@ def execute(trace):
     draws_total = 0
     tot = [0]
     try:
-        with warnings.catch_warnings(), np.errstate(all="ignore"):
-            warnings.simplefilter("ignore")
+        with core.warn_config(cfg.get("warnings", "ignore")), np.errstate(all="ignore"):
             ctxs = {}
 
             def ctx_of(wi):
@@ -1127,7 +1208,7 @@ RULE = ("one run = one simulated session: 1-3 workloads (group setting, conformi
         "workloads differ from the first in few arguments) and 3-12 interleaved calls of genhkl_all / genhkl_unique (tools or "
         "laue, by number or by name, with or without the sintl column), each genhkl_all under its own schedule of the "
         "process-global numpy RNG stream (start state, prior consumption, steals and hostile reseeds before individual draws, "
-        "or the stream left by the previous call); run indices below 474 enumerate all 237 settings x 2 modules, the next 292 all ordered pairs of settings that share a reflection-condition vector on different axes; distinct = "
+        "or the stream left by the previous call); run indices below 474 enumerate all 237 settings x 2 modules, the next 292 all ordered pairs of settings that share a reflection-condition vector on different axes, then sessions whose shell holds exactly N unique reflections for N at powers of two +-1; distinct = "
         "distinct trace digest; non-trivial = the shells contain at least one allowed reflection and at least one draw was "
         "intercepted")
 
